@@ -2,7 +2,7 @@
 \* Exhaustive configurations of Apply.tla: every directory shape up to MaxF files x MaxS statements.
 EXTENDS Apply
 CONSTANTS MaxF, MaxS
-ShapeSet == UNION { [1..nf -> { [k \in 1..n |-> k] : n \in 1..MaxS }] : nf \in 1..MaxF }
+ShapeSet == UNION { [1..nf -> { [k \in 1..n |-> k] : n \in 0..MaxS }] : nf \in 1..MaxF }   \* a file may hold no statement at all (comments only)
 \* C12: one file of every length up to MaxS, optionally followed by a second file
 EditShapes == { <<[k \in 1..n |-> k]>> : n \in 1..MaxS } \cup { <<[k \in 1..n |-> k], <<1>>>> : n \in 1..MaxS }
 ====
